@@ -12,7 +12,7 @@ ALPHA = "abAB1_"
 DICT = ["HTTPServer", "Ab12Cd", "V2", "XmlHttpRequest", "A", "Foo_Bar", "snake_id", "SHOUT", "TLS13", "Item9", "IOError",
         "Xml2Json", "ABc", "X1Y2", "__private", "Trailing_", "Dou__ble", "MiXeD", "ab1CD", "Z", "Ipv4Addr", "HTTP2",
         "Utf8Str", "B2B", "OAuth2Token", "Sha256Sum", "PascalCase", "aBC", "SCREAMING_SNAKE",
-        "\u00c5ngstr\u00f6m", "Cr\u00e8me", "\u00c9clair", "\u00c0B", "Z\u00fcrich2", "caf\u00e9Au", "\u00d1and\u00da", "red", "rgbValue", "r2d2", "rr_channel", "type", "fn", "match", "ref", "__", "_A_", "a__b"]
+        "\u00c5ngstr\u00f6m", "Cr\u00e8me", "\u00c9clair", "\u00c0B", "Z\u00fcrich2", "caf\u00e9Au", "\u00d1and\u00da", "\u023alphaBeta", "\u03f4eta\u0398x", "a\u023e\u03b8", "red", "rgbValue", "r2d2", "rr_channel", "type", "fn", "match", "ref", "__", "_A_", "a__b"]
 
 
 def identifiers(L):
